@@ -19,15 +19,32 @@ RULE = (
     "or raise FfAssignmentError carrying the partial assignment and the molecule; a partial molecule must be refused; metamorphic relations: typing a "
     "randomly renumbered copy gives the same type for every heavy atom (mapped by the permutation) and the same multiset of hydrogen types per parent; "
     "a random history of typing calls with defaults and with explicit copies of the bundled files (made under .work/) never changes a result, and the copies "
-    "give the same result as the defaults. Non-trivial: >= 3 distinct types and an explicit-file call in the history; distinct by SMILES."
+    "give the same result as the defaults. A corpus of ~100 one-token small molecules and ions covering every element the bundled rule file names (metal ions, halides, S, P, Si, "
+    "functional groups) goes through the same oracle. Non-trivial: >= 3 distinct types and an explicit-file call in the history; distinct by SMILES."
 )
 ASSUMPTIONS = ["renumbering is applied to the generated molecule's RDKit object inside a deep copy of the MolGen (harness side)"]
-FLOORS = {"quick": {"molecules_typed": 150, "renumberings": 300, "explicit_file_calls": 100, "partial_probed": 100, "distinct_nontrivial": 40}, "thorough": {"molecules_typed": 4000}}
+FLOORS = {"quick": {"corpus_molecules": 80, "molecules_typed": 150, "renumberings": 300, "explicit_file_calls": 100, "partial_probed": 100, "distinct_nontrivial": 40}, "thorough": {"molecules_typed": 4000}}
+
+
+# small molecules and ions, one token each: every element the bundled rule file names (alkali / alkaline-earth / transition-metal ions, halides,
+# S, P, Si) and the common functional groups -- the readers of the two parameter files are exercised far beyond polymer chemistry
+CORPUS = [
+    "[Na+]", "[Li+]", "[K+]", "[Rb+]", "[Cs+]", "[Mg+2]", "[Ca+2]", "[Sr+2]", "[Ba+2]", "[Fe+2]", "[Cu+2]", "[Cl-]", "[Br-]", "[I-]", "[F-]", "[Zn+2]", "[Al+3]", "[He]", "[Ar]",
+    "O", "N", "C", "CC", "CCO", "CO", "C=C", "C#C", "CC=O", "CC(C)=O", "CC(=O)O", "CC(=O)[O-]", "CC(=O)OC", "COC", "CN", "CNC", "CN(C)C", "C[NH3+]", "C[N+](C)(C)C", "CC(N)=O",
+    "CC(=O)NC", "CC#N", "C[N+](=O)[O-]", "CS", "CSC", "CSSC", "CS(C)=O", "CS(C)(=O)=O", "COP(=O)(OC)OC", "CP(C)C", "C[Si](C)(C)C", "CF", "C(F)(F)F", "CCl", "C(Cl)(Cl)Cl", "CBr", "CI",
+    "c1ccccc1", "Cc1ccccc1", "Oc1ccccc1", "Nc1ccccc1", "Fc1ccccc1", "Clc1ccccc1", "Brc1ccccc1", "c1ccncc1", "c1ccoc1", "c1ccsc1", "C1CCCCC1", "C1CCOC1", "C1CC1", "OCCO", "OCC(O)CO",
+    "NCCN", "CC(C)(C)C", "CCCCCCCC", "C=CC=C", "CC(=O)Cl", "O=C=O", "CC(=O)OC(C)=O", "NC(N)=O", "CNC(=O)OC", "OO", "C1=CCCCC1", "[H][H]", "S", "P", "CC(=O)[O-].[Na+]", "[Cu+2].[O-]C(=O)C",
+    "[Fe+2].[Cl-].[Cl-]", "C[S-]", "C[O-]", "c1ccccc1C(=O)O", "CC(C)Cc1ccccc1", "OCC(F)(F)F", "CCS(=O)(=O)O", "CSC(C)=O", "C[Si](C)(C)O[Si](C)(C)C",
+]
 
 
 def plan(tier, seed):
     n = 48 if tier == "quick" else 900
-    return [{"seed": seed * 1001203 + i, "mols": 5, "renum": 3 if tier == "quick" else 12} for i in range(n)]
+    cases = [{"seed": seed * 1001203 + i, "mols": 5, "renum": 3 if tier == "quick" else 12} for i in range(n)]
+    chunk = 13
+    for i in range(0, len(CORPUS), chunk):
+        cases.append({"seed": seed * 1001209 + i, "corpus": [i, min(len(CORPUS), i + chunk)], "mols": 0, "renum": 2 if tier == "quick" else 8})
+    return cases
 
 
 def setup_worker():
@@ -70,6 +87,83 @@ def do_type(g, explicit):
     return ("ok", {int(k): type_of(v) for k, v in ff.items()}, mol)
 
 
+def judge(g, text, rng, case, cnt, viol, nt):
+    """type one fully generated molecule under a random call history and random renumberings; -> sample dict or None"""
+    from rdkit import Chem
+
+    pt = Chem.GetPeriodicTable()
+    smi = g.smiles
+    # history: random sequence of default / explicit calls, all results must agree
+    hist = [rng.random() < 0.4 for _ in range(rng.randint(2, 5))]
+    if not any(hist):
+        hist[rng.randrange(len(hist))] = True
+    results = []
+    for explicit in hist:
+        r = do_type(g, explicit)
+        cnt["typing_calls"] += 1
+        cnt["explicit_file_calls" if explicit else "default_calls"] += 1
+        results.append((explicit, r))
+    base = next((r for e, r in results if not e), results[0][1])
+    for explicit, r in results:
+        if r[0] == "exc":
+            viol.append({"cls": "c20.typing-raises-other-error" + (".explicit-files" if explicit else ""), "msg": f"typing {smi} with {'explicit copies of the bundled files' if explicit else 'defaults'} raised {type(r[1]).__name__}: {r[1]}"[:300], "text": text, "history": hist})
+            break
+        if r[0] != base[0] or (r[0] == "ok" and r[1] != base[1]):
+            viol.append({"cls": "c20.result-depends-on-history-or-files", "msg": f"typing {smi}: call with explicit={explicit} gave {r[0]} / differs from the first default result in history {hist}", "text": text})
+            break
+    if base[0] == "ffa":
+        cnt["assignment_errors"] += 1
+        exc = base[1]
+        if not isinstance(getattr(exc, "incomplete_ff_dict", None), dict) or getattr(exc, "mol", None) is None:
+            viol.append({"cls": "c20.assignment-error-without-payload", "msg": "FfAssignmentError lacks the partial assignment or the molecule", "text": text})
+        return None
+    if base[0] != "ok":
+        return None
+    cnt["molecules_typed"] += 1
+    ff, mol = base[1], base[2]
+    n = mol.GetNumAtoms()
+    if sorted(ff) != list(range(n)):
+        viol.append({"cls": "c20.not-total", "msg": f"{len(ff)} parameter sets for {n} atoms of {smi} and no FfAssignmentError", "text": text})
+        return None
+    for a in mol.GetAtoms():
+        m = ff[a.GetIdx()][1]
+        if abs(m - pt.GetAtomicWeight(a.GetAtomicNum())) > 0.05 and a.GetIsotope() == 0:
+            viol.append({"cls": "c20.wrong-element-mass", "msg": f"atom {a.GetIdx()} ({a.GetSymbol()}) of {smi} got type {ff[a.GetIdx()][0]} with mass {m}", "text": text})
+            break
+    if len(set(v[0] for v in ff.values())) >= 3:
+        nt.add(smi)
+    # renumbering
+    heavy = [a.GetIdx() for a in g.mol.GetAtoms()]
+    for _ in range(case["renum"]):
+        perm = list(range(len(heavy)))
+        rng.shuffle(perm)  # new atom i is old atom perm[i]
+        g2 = copy.deepcopy(g)
+        g2._mol = Chem.RenumberAtoms(g._mol, perm)
+        r2 = do_type(g2, False)
+        cnt["renumberings"] += 1
+        if r2[0] != "ok":
+            viol.append({"cls": "c20.depends-on-numbering", "msg": f"{smi} is typable but a renumbered copy gave {r2[0]}: {r2[1]}"[:300], "text": text})
+            break
+        ff2, mol2 = r2[1], r2[2]
+        nh = g.mol.GetNumAtoms()
+
+        def htypes(mol_, ff_, idx):
+            return sorted(ff_[nb.GetIdx()] for nb in mol_.GetAtomWithIdx(idx).GetNeighbors() if nb.GetAtomicNum() == 1 and nb.GetIdx() >= nh)
+
+        bad = None
+        for new_i, old_i in enumerate(perm):
+            if ff2[new_i] != ff[old_i]:
+                bad = f"heavy atom {old_i} has type {ff[old_i][0]}, after renumbering {ff2[new_i][0]}"
+                break
+            if htypes(mol2, ff2, new_i) != htypes(mol, ff, old_i):
+                bad = f"hydrogens of atom {old_i} have types {htypes(mol, ff, old_i)}, after renumbering {htypes(mol2, ff2, new_i)}"
+                break
+        if bad:
+            viol.append({"cls": "c20.depends-on-numbering", "msg": f"{smi}: {bad}", "text": text})
+            break
+    return {"input": text, "smiles": smi, "atoms_typed": n, "distinct_types": len(set(v[0] for v in ff.values())), "history_explicit_flags": hist, "types": sorted(set(v[0] for v in ff.values()))}
+
+
 def run_case(case):
     import gbigsmiles
     from rdkit import Chem
@@ -98,77 +192,25 @@ def run_case(case):
             if r[0] in ("ok", "ffa"):
                 viol.append({"cls": "c20.partial-molecule-typed", "msg": f"a molecule with {len(g.bond_descriptors)} open descriptors was typed instead of refused", "text": text})
             continue
-        smi = g.smiles
-        # history: random sequence of default / explicit calls, all results must agree
-        hist = [rng.random() < 0.4 for _ in range(rng.randint(2, 5))]
-        if not any(hist):
-            hist[rng.randrange(len(hist))] = True
-        results = []
-        for explicit in hist:
-            r = do_type(g, explicit)
-            cnt["typing_calls"] += 1
-            cnt["explicit_file_calls" if explicit else "default_calls"] += 1
-            results.append((explicit, r))
-        base = next((r for e, r in results if not e), results[0][1])
-        for explicit, r in results:
-            if r[0] == "exc":
-                viol.append({"cls": "c20.typing-raises-other-error" + (".explicit-files" if explicit else ""), "msg": f"typing {smi} with {'explicit copies of the bundled files' if explicit else 'defaults'} raised {type(r[1]).__name__}: {r[1]}"[:300], "text": text, "history": hist})
-                break
-            if r[0] != base[0] or (r[0] == "ok" and r[1] != base[1]):
-                viol.append({"cls": "c20.result-depends-on-history-or-files", "msg": f"typing {smi}: call with explicit={explicit} gave {r[0]} / differs from the first default result in history {hist}", "text": text})
-                break
-        if base[0] == "ffa":
-            cnt["assignment_errors"] += 1
-            exc = base[1]
-            if not isinstance(getattr(exc, "incomplete_ff_dict", None), dict) or getattr(exc, "mol", None) is None:
-                viol.append({"cls": "c20.assignment-error-without-payload", "msg": "FfAssignmentError lacks the partial assignment or the molecule", "text": text})
-            continue
-        if base[0] != "ok":
-            continue
-        cnt["molecules_typed"] += 1
-        ff, mol = base[1], base[2]
-        n = mol.GetNumAtoms()
-        if sorted(ff) != list(range(n)):
-            viol.append({"cls": "c20.not-total", "msg": f"{len(ff)} parameter sets for {n} atoms of {smi} and no FfAssignmentError", "text": text})
-            continue
-        for a in mol.GetAtoms():
-            m = ff[a.GetIdx()][1]
-            if abs(m - pt.GetAtomicWeight(a.GetAtomicNum())) > 0.05 and a.GetIsotope() == 0:
-                viol.append({"cls": "c20.wrong-element-mass", "msg": f"atom {a.GetIdx()} ({a.GetSymbol()}) of {smi} got type {ff[a.GetIdx()][0]} with mass {m}", "text": text})
-                break
-        if len(set(v[0] for v in ff.values())) >= 3:
-            nt.add(smi)
-        # renumbering
-        heavy = [a.GetIdx() for a in g.mol.GetAtoms()]
-        for _ in range(case["renum"]):
-            perm = list(range(len(heavy)))
-            rng.shuffle(perm)  # new atom i is old atom perm[i]
-            g2 = copy.deepcopy(g)
-            g2._mol = Chem.RenumberAtoms(g._mol, perm)
-            r2 = do_type(g2, False)
-            cnt["renumberings"] += 1
-            if r2[0] != "ok":
-                viol.append({"cls": "c20.depends-on-numbering", "msg": f"{smi} is typable but a renumbered copy gave {r2[0]}: {r2[1]}"[:300], "text": text})
-                break
-            ff2, mol2 = r2[1], r2[2]
-            nh = g.mol.GetNumAtoms()
-
-            def htypes(mol_, ff_, idx):
-                return sorted(ff_[nb.GetIdx()] for nb in mol_.GetAtomWithIdx(idx).GetNeighbors() if nb.GetAtomicNum() == 1 and nb.GetIdx() >= nh)
-
-            bad = None
-            for new_i, old_i in enumerate(perm):
-                if ff2[new_i] != ff[old_i]:
-                    bad = f"heavy atom {old_i} has type {ff[old_i][0]}, after renumbering {ff2[new_i][0]}"
-                    break
-                if htypes(mol2, ff2, new_i) != htypes(mol, ff, old_i):
-                    bad = f"hydrogens of atom {old_i} have types {htypes(mol, ff, old_i)}, after renumbering {htypes(mol2, ff2, new_i)}"
-                    break
-            if bad:
-                viol.append({"cls": "c20.depends-on-numbering", "msg": f"{smi}: {bad}", "text": text})
-                break
-        if sample is None:
-            sample = {"input": text, "smiles": smi, "atoms_typed": n, "distinct_types": len(set(v[0] for v in ff.values())), "history_explicit_flags": hist}
+        smp = judge(g, text, rng, case, cnt, viol, nt)
+        if sample is None and smp:
+            sample = smp
+    if case.get("corpus"):
+        lo, hi = case["corpus"]
+        for smi0 in CORPUS[lo:hi]:
+            try:
+                g = gbigsmiles.Molecule(smi0).generate(rng=W.spy(1))
+            except Exception:
+                cnt["corpus_not_generated"] += 1
+                continue
+            cnt["corpus_molecules"] += 1
+            smp = judge(g, smi0, rng, case, cnt, viol, nt)
+            if smp:
+                cnt["corpus_molecules_typed"] += 1
+                if sample is None:
+                    sample = smp
+        cnt["evaluations"] = cnt["typing_calls"] + cnt["renumberings"]
+        return {"viol": viol[:12], "nt": sorted(nt), "cnt": dict(cnt), "sample": sample}
     # deliberately partial molecules: a token / a prefix + object without its suffix, open descriptors with weight 0, 1, 2.5
     for w in ("|0|", "", "|2.5|", "|0.0|"):
         for txt, kind in ((f"CCO[>{w}]", "token"), (f"OC[<{w}]", "token"), (f"CC[>{w}]{{[>{w}] [<]CC[>{w}] [<{w}]}}|gauss(80,5)|", "molecule")):
